@@ -95,6 +95,8 @@ def node_fp(machine, n, resolved=True) -> Dict[str, Any]:
         "on": {ev: [trans_fp(machine, t, resolved) for t in ts] for ev, ts in n.on.items()},
         "on_done": trans_fp(machine, n.on_done, resolved) if n.on_done else None,
         "after": {str(k): [trans_fp(machine, t, resolved) for t in ts] for k, ts in n.after.items()},
+        # timers are armed in declaration order, which decides between delays that come out equal
+        "after_order": [str(k) for k in n.after],
         "invoke": [{"id": i.id, "src": i.src, "input": _val(i.input),
                     "on_done": [trans_fp(machine, t, resolved) for t in i.on_done],
                     "on_error": [trans_fp(machine, t, resolved) for t in i.on_error]}
